@@ -229,6 +229,7 @@ Section Proofs.
 
   (* ---- the edit itself ---- *)
 
+
   Lemma correct_fields : forall s, s_req (correct s) = s_req s /\ s_nodes (correct s) = s_nodes s /\
     s_st (correct s) = if Nat.eqb (s_st s) st_running then st_error else s_st s.
   Proof. intros. unfold correct. destruct (Nat.eqb (s_st s) st_running); simpl; auto. Qed.
@@ -244,6 +245,7 @@ Section Proofs.
     mark a loc b to = (c, a', ev) ->
     (c <> 200 /\ a' = a /\ ev = []) \/
     (c = 200 /\ ev = [] /\ b_reqid b <> "" /\ b_step b <> "" /\ latest_status a loc <> st_running /\
+     (exists q, update_refused a loc q = false) /\
      exists i r s j,
        let rs := h_get loc (w_hist (a_w a)) in
        let s1 := if addressed_live a loc (b_reqid b) then s else correct s in
@@ -263,7 +265,35 @@ Section Proofs.
     destruct (update_refused a loc _) eqn:U; [injection H as <- <- <-; left; repeat split; auto; discriminate|].
     injection H as <- <- <-. right.
     apply String.eqb_neq in E1. apply String.eqb_neq in E2. apply Nat.eqb_neq in E3.
-    repeat split; auto. exists i, r, s, j. simpl. repeat split; auto.
+    repeat split; auto; [eexists; exact U|]. exists i, r, s, j. simpl. repeat split; auto.
+  Qed.
+
+  (* C20_mark_unresponsive: the DAG's process owns the control socket but does not answer (every request times
+     out).  The DAG-level guard then looks at the history (and may see "failed"), yet a status edit is refused by
+     UpdateStatus: not 200, world unchanged, nothing started or stopped. *)
+  Theorem mark_unresponsive_refused : forall a id b act loc rq,
+    b_action b = Some act -> is_mark act -> view (a_w a) id = Some loc ->
+    live_get loc (a_live a) = Some (rq, st_timeout) ->
+    fst (fst (post a id b)) <> 200 /\ snd (fst (post a id b)) = a /\ snd (post a id b) = [].
+  Proof.
+    intros a id b act loc rq HA HM HV HL.
+    destruct (post a id b) as [[c a'] ev] eqn:HP. simpl.
+    rewrite (post_mark _ _ _ _ HA HM) in HP. rewrite HV in HP.
+    apply mark_cases in HP. destruct HP as [(C & -> & ->)|(_ & _ & _ & _ & _ & (q & U) & _)]; auto.
+    exfalso. unfold update_refused in U. rewrite HL in U. discriminate.
+  Qed.
+
+  (* ... while start and stop then go by the recorded history (relabelled failed): a stop is refused *)
+  Theorem stop_unresponsive_refused : forall a id b loc rq,
+    b_action b = Some "stop" -> view (a_w a) id = Some loc ->
+    live_get loc (a_live a) = Some (rq, st_timeout) -> post a id b = (400, a, []).
+  Proof.
+    intros a id b loc rq HA HV HL. apply stop_guard with (loc := loc); auto.
+    unfold latest_status. rewrite HL. simpl.
+    destruct (latest_run (h_get loc (w_hist (a_w a)))) as [r|]; [|discriminate].
+    destruct (last_line r) as [s|]; [|discriminate].
+    unfold correct. destruct (Nat.eqb (s_st s) st_running) eqn:E; simpl; [discriminate|].
+    apply Nat.eqb_neq in E. exact E.
   Qed.
 
   (* C20_mark_exact: an accepted status edit appends to the addressed run - the run of this DAG whose last
@@ -292,7 +322,7 @@ Section Proofs.
   Proof.
     intros a id b act loc a' ev HA HM HV HP rs rs'.
     rewrite (post_mark _ _ _ _ HA HM) in HP. rewrite HV in HP.
-    apply mark_cases in HP. destruct HP as [(C & _)|(_ & -> & R1 & R2 & R3 & i & r & s & j & P & N & LL & LN & ->)]; [congruence|].
+    apply mark_cases in HP. destruct HP as [(C & _)|(_ & -> & R1 & R2 & R3 & _ & i & r & s & j & P & N & LL & LN & ->)]; [congruence|].
     subst rs rs'. simpl. rewrite h_get_set_eq.
     repeat split; auto.
     - intros. now apply h_get_set_neq.
@@ -482,7 +512,7 @@ Section Proofs.
     intros a id b act loc H M V NS.
     destruct (post a id b) as [[c a'] ev] eqn:HP. simpl.
     rewrite (post_mark _ _ _ _ H M) in HP. rewrite V in HP.
-    apply mark_cases in HP. destruct HP as [(C & -> & ->)|(_ & _ & _ & _ & _ & i & r & s & j & _ & N & LL & LN & _)]; auto.
+    apply mark_cases in HP. destruct HP as [(C & -> & ->)|(_ & _ & _ & _ & _ & _ & i & r & s & j & _ & N & LL & LN & _)]; auto.
     exfalso. apply last_node_idx_spec in LN. destruct LN as (n & NN & NM).
     assert (NS' : s_nodes (if addressed_live a loc (b_reqid b) then s else correct s) = s_nodes s).
     { destruct (addressed_live a loc (b_reqid b)); auto. apply correct_fields. }
@@ -541,7 +571,16 @@ Definition a_crashed : aworld :=
   mkA (world_ex [mkStatus "rc" 1 [mkNode "s1" 4; mkNode "s2" 1]]) [].
 Definition a_failed : aworld :=
   mkA (world_ex [mkStatus "rc" 1 [mkNode "s1" 1; mkNode "s2" 0]; mkStatus "rc" 2 [mkNode "s1" 4; mkNode "s2" 2]]) [].
+Definition a_unresponsive : aworld :=
+  mkA (world_ex [mkStatus "rc" 1 [mkNode "s1" 1; mkNode "s2" 0]]) [("/d/a.yaml", ("", st_timeout))].
 Definition bd (act rq stp p : string) : body := mkBody (Some act) "" rq stp p.
+
+Example ex_unresponsive :
+  latest_status a_unresponsive "/d/a.yaml" = 2%nat /\
+  post ok_all ok_all ok_all "/d" true a_unresponsive "a" (bd "mark-success" "rc" "s1" "") = (500, a_unresponsive, []) /\
+  post ok_all ok_all ok_all "/d" true a_unresponsive "a" (bd "mark-failed" "ro" "s2" "") = (500, a_unresponsive, []) /\
+  post ok_all ok_all ok_all "/d" true a_unresponsive "a" (bd "stop" "" "" "") = (400, a_unresponsive, []).
+Proof. vm_compute. repeat split. Qed.
 
 Example ex_guards :
   post ok_all ok_all ok_all "/d" true a_running "a" (bd "start" "" "" "p") = (400, a_running, []) /\
